@@ -682,7 +682,15 @@ class FldExporter(Exporter):
         if scope == FldExporter.ScopeOfValues.AllVariables:
             if len(engine.input_variables) == 0:
                 raise ValueError("expected input variables in engine, but got none")
-            resolution = -1 + max(1, int(pow(values, (1.0 / len(engine.input_variables)))))
+            inputs = len(engine.input_variables)
+            # largest k with k**inputs <= values; the floating-point root is only an estimate
+            # (eg, pow(64, 1/3) = 3.9999999999999996), so it is corrected with integer arithmetic
+            k = max(1, round(pow(values, (1.0 / inputs))))
+            while k > 1 and k**inputs > values:
+                k -= 1
+            while (k + 1) ** inputs <= values:
+                k += 1
+            resolution = k - 1
         else:
             resolution = values - 1
 
